@@ -191,7 +191,7 @@ class Ctx:
 
 
 SPEC_BUILTINS = {"requires", "ensures", "raises", "modifies", "reads", "types", "returns", "invariant",
-                 "decreases", "ghost", "assume_contract", "may_raise", "pure", "foreach", "bounded", "shares",
+                 "decreases", "ghost", "assume_contract", "may_raise", "pure", "foreach", "bounded", "shares", "cut_after",
                  "names_distinct"}
 
 
@@ -674,7 +674,11 @@ class Exec:
         if isinstance(a, VStr) and isinstance(b, VStr):
             return VStr(t_ite(c, a.t, b.t))
         if isinstance(a, (VLin, VInt, VReal)) and isinstance(b, (VLin, VInt, VReal)):
-            return VLin(t_ite(c, to_real(a.t), to_real(b.t)))
+            r = VLin(t_ite(c, to_real(a.t), to_real(b.t)))
+            va, vb = getattr(a, "var", None), getattr(b, "var", None)
+            if va is not None and vb is not None:
+                r.var = t_ite(c, va, vb)
+            return r
         if isinstance(a, VOpaque) and isinstance(b, VOpaque):
             return VOpaque(t_ite(c, a.t, b.t), a.name)
         if isinstance(a, (VTuple, VRec)) and isinstance(b, (VTuple, VRec)) and len(a.items) == len(b.items):
